@@ -102,6 +102,7 @@ type fakeClient struct {
 	// collHigh: per vBucket, what the collection-aware sequence-number query answers (the last item of the configured
 	// collections), where it differs from the vBucket's high seqno
 	collHigh map[uint16]uint64
+	live     map[uint16]bool // vBuckets whose stream was requested successfully and not closed since
 }
 
 func newFakeClient(numVb int) *fakeClient {
@@ -182,6 +183,10 @@ func (f *fakeClient) OpenStream(vb uint16, coll map[uint32]string, off *models.O
 	onOpen := f.onOpen
 	if err == nil {
 		f.obs[vb] = o
+		if f.live == nil {
+			f.live = map[uint16]bool{}
+		}
+		f.live[vb] = true
 		// what client.go's OpenStream callback does on success
 		o.SetVbUUID(f.failoverOf(vb)[0].VbUUID)
 		f.opens[len(f.opens)-1].UUID = uint64(f.failoverOf(vb)[0].VbUUID)
@@ -211,6 +216,7 @@ func (f *fakeClient) CloseStream(vb uint16) error {
 	defer f.inflight.Add(-1)
 	f.mu.Lock()
 	f.closes = append(f.closes, vb)
+	delete(f.live, vb)
 	o := f.obs[vb]
 	onClose, end := f.onClose, f.endOnClose
 	f.mu.Unlock()
@@ -253,6 +259,24 @@ func (f *fakeClient) GetCollectionIDs(string, []string) (map[uint32]string, erro
 func (f *fakeClient) GetAgentQueues() []*models.AgentQueue { return nil }
 func (f *fakeClient) GetAgent() *gocbcore.Agent            { return f.agent }
 func (f *fakeClient) GetMetaAgent() *gocbcore.Agent        { return nil }
+
+// liveRange: the vBuckets streamed right now, as "lo-hi" when contiguous (else the list)
+func (f *fakeClient) liveRange() string {
+	f.mu.Lock()
+	defer f.mu.Unlock()
+	var v []int
+	for vb := range f.live {
+		v = append(v, int(vb))
+	}
+	sort.Ints(v)
+	if len(v) == 0 {
+		return "nothing"
+	}
+	if v[len(v)-1]-v[0]+1 == len(v) {
+		return fmt.Sprintf("%d-%d", v[0], v[len(v)-1])
+	}
+	return fmt.Sprint(v)
+}
 
 func (f *fakeClient) observer(vb uint16) couchbase.Observer {
 	f.mu.Lock()
